@@ -7,6 +7,9 @@ Spec: `code v` = `k` zeros followed by the `k+1` binary digits of `v+1`, most si
 with `k = ⌊log2 (v+1)⌋` and `v+1` computed in ℕ (no wrap-around; for `v = 2^N - 1` this is `N`
 zeros, a one, `N` zeros).
 -/
+set_option linter.unusedSimpArgs false
+set_option linter.unusedVariables false
+set_option linter.unnecessarySimpa false
 namespace CV.Bits.EG
 
 /-- the Exp-Golomb codeword of `v` -/
